@@ -155,9 +155,12 @@ Section Interleave.
 
   (* ---- the linearisation-point condition ---- *)
   Variable good : Op -> Prop.
+  (* [linv]: an invariant of the local states an operation can reach *)
+  Variable linv : Op -> Loc -> Prop.
   Definition lp_cond : Prop :=
-    (forall o, lp_res (init_loc o) = None) /\
-    (forall o l s l' s' d, good o -> act o l s = Some (l', s', d) ->
+    (forall o, lp_res (init_loc o) = None /\ linv o (init_loc o)) /\
+    (forall o l s l' s' d, good o -> linv o l -> act o l s = Some (l', s', d) ->
+       (d = None -> linv o l') /\
        match lp_res l, lp_res l' with
        | None, None => s' = s /\ d = None
        | None, Some r => spec o s = (s', r) /\ (d = None \/ d = Some r)
@@ -167,7 +170,7 @@ Section Interleave.
 
   Definition thread_good (th : thread) : Prop :=
     Forall good (todo th) /\
-    match cur th with Idle => True | Running o _ => good o | Finished o _ => good o end.
+    match cur th with Idle => True | Running o l => good o /\ linv o l | Finished o _ => good o end.
 
   (* per-thread part of the invariant *)
   Definition thread_inv (c : config) (t : nat) (th : thread) : Prop :=
@@ -248,7 +251,7 @@ Section Interleave.
         * erewrite nth_upd_eq in Hn by eauto. inv_pair Hn.
           unfold thread_inv, thread_good; cbn.
           inversion HGtodo; subst.
-          rewrite HL0.
+          destruct (HL0 o) as (HL0a & HL0b). rewrite HL0a.
           split; [split; auto|]. split.
           -- intros n o' r' [HE|HI]; [discriminate|eauto].
           -- split; [left; reflexivity|exact Hcur].
@@ -266,7 +269,8 @@ Section Interleave.
           assert (i_n b < idx th) by (apply Hcur; auto). lia.
     - (* Act *)
       destruct (act o l (shared c)) as [[[l' s'] d]|] eqn:Hact; [|split; auto].
-      pose proof (HL1 o l (shared c) l' s' d HGcur Hact) as HLP.
+      destruct HGcur as (HGo & HLinv).
+      destruct (HL1 o l (shared c) l' s' d HGo HLinv Hact) as (HLinv' & HLP).
       destruct Hcur as (HInvIn & Hcur).
       set (cur' := match d with None => Running o l' | Some r => Finished o r end).
       destruct (lp_res l) as [r0|] eqn:Hl; destruct (lp_res l') as [r1|] eqn:Hl'; try contradiction.
@@ -362,6 +366,62 @@ Section Interleave.
   Proof.
     intros s0 progs sched HL HG c.
     apply (inv_exec s0 sched (init s0 progs) HL (inv_init s0 progs HG)).
+  Qed.
+
+  (* every instance in the ghost order is an operation of some program *)
+  Definition thread_good' (th : thread) : Prop :=
+    Forall good (todo th) /\
+    match cur th with Idle => True | Running o _ => good o | Finished o _ => good o end.
+  Definition inv_good (c : config) : Prop :=
+    (forall t th, nth_error (threads c) t = Some th -> thread_good' th) /\
+    (forall x, In x (rlin c) -> good (i_op x)).
+
+  Lemma inv_good_step : forall c t, inv_good c -> inv_good (step c t).
+  Proof.
+    intros c t [HT HL]. unfold step.
+    destruct (nth_error (threads c) t) as [th|] eqn:Hth; [|split; auto].
+    destruct (HT t th Hth) as (HGtodo & HGcur).
+    destruct (cur th) as [|o l|o r] eqn:Hc.
+    - destruct (todo th) as [|o rest] eqn:Htodo; [split; auto|].
+      inversion HGtodo; subst.
+      split; cbn; auto.
+      intros t' th' Hn. destruct (Nat.eq_dec t t') as [<-|Hne].
+      + erewrite nth_upd_eq in Hn by eauto. inversion Hn; subst. split; cbn; auto.
+      + rewrite nth_upd_neq in Hn by auto. eauto.
+    - destruct (act o l (shared c)) as [[[l' s'] d]|] eqn:Hact; [|split; auto].
+      split; cbn.
+      + intros t' th' Hn. destruct (Nat.eq_dec t t') as [<-|Hne].
+        * erewrite nth_upd_eq in Hn by eauto. inversion Hn; subst. split; cbn; auto.
+          destruct d; auto.
+        * rewrite nth_upd_neq in Hn by auto. eauto.
+      + destruct (lp_res l); destruct (lp_res l'); auto.
+        intros x [<-|Hx]; cbn; auto.
+    - split; cbn; auto.
+      intros t' th' Hn. destruct (Nat.eq_dec t t') as [<-|Hne].
+      + erewrite nth_upd_eq in Hn by eauto. inversion Hn; subst. split; cbn; auto.
+      + rewrite nth_upd_neq in Hn by auto. eauto.
+  Qed.
+
+  Lemma rlin_good : forall s0 progs sched, Forall (Forall good) progs ->
+    forall x, In x (rlin (exec sched (init s0 progs))) -> good (i_op x).
+  Proof.
+    intros s0 progs sched HG.
+    assert (H0 : inv_good (init s0 progs)).
+    { split; [|intros x []]. intros t th Hn. unfold init in Hn; cbn in Hn.
+      rewrite nth_error_map in Hn. destruct (nth_error progs t) as [p|] eqn:Hp; cbn in Hn; inversion Hn; subst.
+      split; cbn; auto. rewrite Forall_forall in HG. apply HG. eapply nth_error_In; eauto. }
+    revert H0. generalize (init s0 progs). induction sched as [|t sched IH]; intros c Hc; cbn.
+    - apply Hc.
+    - apply IH. apply inv_good_step; auto.
+  Qed.
+
+  (* a legal run can be cut at any instance: the state just before it *)
+  Lemma rlegal_split : forall s0 a x b s', rlegal s0 (a ++ x :: b) s' ->
+    exists s1 s2, rlegal s0 b s1 /\ spec (i_op x) s1 = (s2, i_res x).
+  Proof.
+    intros s0 a; induction a as [|y a IH]; intros x b s' H; cbn in H.
+    - destruct H as (s1 & H1 & H2). eauto.
+    - destruct H as (s1 & H1 & H2). eapply IH; eauto.
   Qed.
 
   Corollary lp_linearizable_ex : forall s0 progs sched,
